@@ -1744,7 +1744,12 @@ func main() {
 			fmt.Fprintln(os.Stderr, err)
 			os.Exit(2)
 		}
-		if err := os.WriteFile(*out, []byte(text), 0o644); err != nil {
+		tmp := *out + ".tmp"
+		if err := os.WriteFile(tmp, []byte(text), 0o644); err != nil {
+			fmt.Fprintln(os.Stderr, err)
+			os.Exit(2)
+		}
+		if err := os.Rename(tmp, *out); err != nil {
 			fmt.Fprintln(os.Stderr, err)
 			os.Exit(2)
 		}
